@@ -99,6 +99,9 @@ func run(repo, out string) error {
 	if err := ints(repo, out); err != nil {
 		return err
 	}
+	if err := aliasing(repo, out); err != nil {
+		return err
+	}
 	return globals(repo, out)
 }
 
@@ -1270,4 +1273,210 @@ func methodSelfLocks(fn *ast.FuncDecl, recv string) bool {
 		return true
 	})
 	return ok
+}
+
+// ---------------------------------------------------------------- representation facts (aliasing)
+
+// aliasing extracts the syntactic facts behind three things the model takes for granted by its
+// representation: (1) a link of a property chain is never written after it was built (owners share
+// tails of chains, so an in-place write would show through another owner); (2) AllRows hands out a
+// slice of its own making, not the table's; (3) the column list holds pointers, so Column(n) is the
+// live column and stays so when the list grows.
+func aliasing(repo, out string) error {
+	files, err := parseDir(repo)
+	if err != nil {
+		return err
+	}
+	// (1) struct types with a field whose type is an interface declared in the package and that also have
+	// a field named like a key: the chain link types.  Field names of those types:
+	ifaces := map[string]bool{}
+	for _, f := range files {
+		for _, d := range f.Decls {
+			if gd, ok := d.(*ast.GenDecl); ok {
+				for _, sp := range gd.Specs {
+					if ts, ok := sp.(*ast.TypeSpec); ok {
+						if _, ok := ts.Type.(*ast.InterfaceType); ok {
+							ifaces[ts.Name.Name] = true
+						}
+					}
+				}
+			}
+		}
+	}
+	linkFields := map[string]string{} // field name -> link type
+	var linkTypes []string
+	for _, f := range files {
+		for _, d := range f.Decls {
+			gd, ok := d.(*ast.GenDecl)
+			if !ok {
+				continue
+			}
+			for _, sp := range gd.Specs {
+				ts, ok := sp.(*ast.TypeSpec)
+				if !ok {
+					continue
+				}
+				st, ok := ts.Type.(*ast.StructType)
+				if !ok {
+					continue
+				}
+				hasParent, hasKey := false, false
+				var names []string
+				for _, fl := range st.Fields.List {
+					if id, ok := fl.Type.(*ast.Ident); ok && ifaces[id.Name] && id.Name == "propertySet" {
+						hasParent = true
+					}
+					for _, n := range fl.Names {
+						names = append(names, n.Name)
+						if strings.Contains(strings.ToLower(n.Name), "key") {
+							hasKey = true
+						}
+					}
+				}
+				if hasParent && hasKey {
+					linkTypes = append(linkTypes, ts.Name.Name)
+					for _, n := range names {
+						linkFields[n] = ts.Name.Name
+					}
+				}
+			}
+		}
+	}
+	var linkWrites []string
+	for _, f := range files {
+		for _, d := range f.Decls {
+			fn, ok := d.(*ast.FuncDecl)
+			if !ok || fn.Body == nil {
+				continue
+			}
+			// identifiers bound to a link built in this very function (`x := &T{…}`, `new(T)`): filling in a
+			// link nobody else has seen yet is construction, not a write to an existing one
+			fresh := map[string]bool{}
+			ast.Inspect(fn.Body, func(n ast.Node) bool {
+				as, ok := n.(*ast.AssignStmt)
+				if !ok || len(as.Lhs) != len(as.Rhs) {
+					return true
+				}
+				for i, r := range as.Rhs {
+					id, ok := as.Lhs[i].(*ast.Ident)
+					if !ok {
+						continue
+					}
+					e := r
+					if u, ok := e.(*ast.UnaryExpr); ok && u.Op == token.AND {
+						e = u.X
+					}
+					if _, ok := e.(*ast.CompositeLit); ok {
+						fresh[id.Name] = true
+					}
+					if c, ok := e.(*ast.CallExpr); ok {
+						if f, ok := c.Fun.(*ast.Ident); ok && f.Name == "new" {
+							fresh[id.Name] = true
+						}
+					}
+				}
+				return true
+			})
+			ast.Inspect(fn.Body, func(n ast.Node) bool {
+				var lhs []ast.Expr
+				switch st := n.(type) {
+				case *ast.AssignStmt:
+					lhs = st.Lhs
+				case *ast.IncDecStmt:
+					lhs = []ast.Expr{st.X}
+				}
+				for _, l := range lhs {
+					if sel, ok := l.(*ast.SelectorExpr); ok {
+						if base, ok := sel.X.(*ast.Ident); ok && fresh[base.Name] {
+							continue
+						}
+						if _, isLink := linkFields[sel.Sel.Name]; isLink && sel.Sel.Name != "properties" {
+							linkWrites = append(linkWrites, fmt.Sprintf("%s: %s", fn.Name.Name, src(l)))
+						}
+					}
+				}
+				return true
+			})
+		}
+	}
+	// (2) AllRows: what it returns
+	var allRowsReturns []string
+	allRowsOwn := true
+	if fn := findFunc(files, "AllRows", "ATable"); fn != nil && fn.Recv != nil && len(fn.Recv.List) == 1 && len(fn.Recv.List[0].Names) == 1 {
+		recv := fn.Recv.List[0].Names[0].Name
+		ast.Inspect(fn.Body, func(n ast.Node) bool {
+			rs, ok := n.(*ast.ReturnStmt)
+			if !ok {
+				return true
+			}
+			for _, r := range rs.Results {
+				allRowsReturns = append(allRowsReturns, src(r))
+				e := r
+				for {
+					if sl, ok := e.(*ast.SliceExpr); ok {
+						e = sl.X
+						continue
+					}
+					if pe, ok := e.(*ast.ParenExpr); ok {
+						e = pe.X
+						continue
+					}
+					break
+				}
+				if sel, ok := e.(*ast.SelectorExpr); ok {
+					if id, ok := sel.X.(*ast.Ident); ok && id.Name == recv {
+						allRowsOwn = false // hands out (a slice of) a field of the table itself
+					}
+				}
+			}
+			return true
+		})
+	} else {
+		allRowsReturns = []string{"(AllRows not found)"}
+	}
+	// (3) the table's column list: element type
+	colElem := ""
+	for _, f := range files {
+		for _, d := range f.Decls {
+			gd, ok := d.(*ast.GenDecl)
+			if !ok {
+				continue
+			}
+			for _, sp := range gd.Specs {
+				ts, ok := sp.(*ast.TypeSpec)
+				if !ok || ts.Name.Name != "ATable" {
+					continue
+				}
+				if st, ok := ts.Type.(*ast.StructType); ok {
+					for _, fl := range st.Fields.List {
+						if at, ok := fl.Type.(*ast.ArrayType); ok && at.Len == nil {
+							el := src(at.Elt)
+							if strings.HasSuffix(el, "column") {
+								colElem = el
+							}
+						}
+					}
+				}
+			}
+		}
+	}
+	var b strings.Builder
+	b.WriteString("-- GENERATED by extract/ from /repo on every check; do not edit.\nnamespace Tab.Generated\n")
+	list := func(name, doc string, l []string) {
+		fmt.Fprintf(&b, "/-- %s -/\ndef %s : List String := [", doc, name)
+		for i, x := range l {
+			if i > 0 {
+				b.WriteString(", ")
+			}
+			b.WriteString(leanStr(x))
+		}
+		b.WriteString("]\n")
+	}
+	list("chainLinkTypes", "struct types that are links of a property chain (a parent link of the chain interface type and a key)", linkTypes)
+	list("chainLinkWrites", "assignments through a field of a chain link, anywhere in the core package (construction by composite literal is not one)", linkWrites)
+	list("allRowsReturns", "the expressions AllRows returns", allRowsReturns)
+	fmt.Fprintf(&b, "/-- AllRows returns nothing that is (a slice of) a field of the table -/\ndef allRowsOwnSlice : Bool := %v\n", allRowsOwn)
+	fmt.Fprintf(&b, "/-- element type of the table's column list -/\ndef columnListElem : String := %s\n", leanStr(colElem))
+	b.WriteString("end Tab.Generated\n")
+	return os.WriteFile(filepath.Join(out, "Aliasing.lean"), []byte(b.String()), 0o644)
 }
